@@ -978,6 +978,31 @@ impl World {
 			.0;
 		let mut route_hops = Vec::new();
 		let mut prev = from;
+		// a channel of the route may be gone (closed after a restart): the user has no route, nothing is sent
+		{
+			let mut pv = from;
+			for (node, cid) in hops.iter() {
+				if self.chan(pv, cid).and_then(|c| c.short_channel_id).is_none() {
+					self.obs.push(Obs::Api { node: from, what: format!("send_payment {}", amount_msat), ok: false, detail: "no route: channel closed".into() });
+					self.payments.push(PaymentRec {
+						id: PaymentId(hash.0),
+						hash,
+						preimage: pre,
+						secret,
+						from,
+						to,
+						amount_msat,
+						policy,
+						send_ok: false,
+						send_err: "no route: channel closed".into(),
+						claimed_by_recipient: false,
+						failed_by_recipient: false,
+					});
+					return self.payments.len() - 1;
+				}
+				pv = *node;
+			}
+		}
 		for (i, (node, cid)) in hops.iter().enumerate() {
 			let ch = self.chan(prev, cid).expect("route channel");
 			let last = i + 1 == hops.len();
